@@ -19,7 +19,8 @@ THEOREMS = [
     'C12.parse_colours_small', 'C12.start_end_size', 'C12.ircWrap_fits_partial', 'C12.ircWrap_fits_counterexample',
     'C12.ircWrap_plain', 'C12.coherent_plain', 'C12.makeReply_wire', 'C12.fits_512_partial', 'C12.fits_512_plain',
     'C12.single_fits_512', 'C12.more_counts', 'C12.more_counts_delivery', 'C12.reply_first_batch', 'C12.more_protocol',
-    'C12.visible_text_plain',
+    'C12.visible_text_plain', 'C12.flags_ok', 'C12.coherent_nocolour', 'C12.ircWrap_nocolour', 'C12.fits_512_nocolour',
+    'C12.visible_text_counterexample', 'C12.chunk_count_partial', 'C12.chunk_count_counterexample',
 ]
 TRUSTED = ['Lean 4.33.0 kernel; axioms ⊆ {propext, Classical.choice, Quot.sound}',
            'harness/extractors/reply.py (constants of splitBytes, FormatContext, FormatParser, reply, _makeReply → Gen/Reply.lean)',
